@@ -5,13 +5,14 @@
  *        xmlscan --replay <ops> <c-out>
  *
  * op lines (answers: see the driver lean/Driver/XmlScan.lean, the formats are identical):
- *   buf <A><E> <hex>       new session: hwloc_nolibxml_backend_init(copy of the bytes, n) ; A,E = variant bits
+ *   buf <hex|.>            new session: hwloc_nolibxml_backend_init(copy of the bytes, n)   (n = 0: must be refused)
+ *   bufn <len>             hwloc_nolibxml_backend_init with xmlbuflen = <len> <= 0: must be refused
  *   init                   hwloc_nolibxml_look_init -> frame 0
  *   A <f> | F <f> | T <f> | C <f> | G <f> <len> | K <f>
  *                          next_attr / find_child / close_tag / close_child / get_content / close_content
  *   dist <nbobjs> <n children> { i|v <hexcontent> }...    whole-loader run of one <distances2> element
- * Ops that fall into a confirmed defect class are answered `illegal` (by both sides) unless the class
- * is switched on with VERIF_INCLUDE_F05A / F05E / F05F = 1 (then they are executed).
+ * An op outside the consumer state machine (close_content without a preceding successful get_content, close_child on the root
+ * state, ...) is answered `illegal` by both sides and not executed.  Every other op is executed: any sanitizer report is a violation.
  */
 #include "topology-xml-nolibxml.c"
 #include "rng.h"
@@ -20,13 +21,11 @@
 #include <fcntl.h>
 
 static FILE *fops, *fout;
-static int inc_a, inc_b, inc_e, inc_f;
-static int var_a, var_e; /* 1 = the source has the fix */
 static unsigned long stats[32];
-enum { S_BUF, S_INIT_OK, S_INIT_FAIL, S_SKIP_F05A, S_SKIP_F05E, S_ATTR_OK, S_ATTR_FAIL, S_ATTR_ESC, S_CHILD1, S_CHILD0, S_CHILD_FAIL,
+enum { S_BUF, S_INIT_OK, S_INIT_FAIL, S_ATTR_OK, S_ATTR_FAIL, S_ATTR_ESC, S_CHILD1, S_CHILD0, S_CHILD_FAIL,
        S_CLOSED_TAG, S_CLOSETAG_OK, S_CLOSETAG_FAIL, S_CONTENT1, S_CONTENT0, S_CONTENT_FAIL, S_CLOSECONTENT, S_CLOSECHILD,
        S_DOC_VALID, S_DOC_V2, S_DOC_MUT, S_DOC_TRUNC, S_DOC_RANDOM, S_DOC_FILE, S_DIST_OK, S_DIST_FAIL, S_NB };
-static const char *stat_names[] = { "buffers", "init.ok", "init.fail", "skip.f05a", "skip.f05e", "attr.ok", "attr.fail", "attr.unescaped", "child.found",
+static const char *stat_names[] = { "buffers", "init.ok", "init.fail", "attr.ok", "attr.fail", "attr.unescaped", "child.found",
        "child.none", "child.fail", "child.autoclosed", "closetag.ok", "closetag.fail", "content.1", "content.0", "content.fail",
        "closecontent", "closechild", "doc.valid", "doc.v2", "doc.mutant", "doc.truncated", "doc.random", "doc.file", "dist.ok", "dist.fail" };
 
@@ -63,20 +62,6 @@ static void put_off(const char *key, const char *p) {
 }
 #define NS(f) ((hwloc__nolibxml_import_state_data_t) (void *) frames[f]->data)
 
-/* F05a class: sscanf matches both numbers but the buffer has no '>' */
-static int class_f05a(void) {
-  char *b = base; unsigned ma, mi;
-  while (!strncmp(b, "<?xml ", 6) || !strncmp(b, "<!DOCTYPE ", 10)) { b = strchr(b, '\n'); if (!b) return 0; b++; }
-  return sscanf(b, "<topology version=\"%u.%u\">", &ma, &mi) == 2 && !strchr(b, '>');
-}
-/* F05e class: the attribute value would start exactly at the final NUL */
-static int class_f05e(unsigned f) {
-  char *p = NS(f)->attrbuffer; size_t nl;
-  if (!p) return 0;
-  p += strspn(p, " \t\n\r"); nl = strspn(p, "abcdefghijklmnopqrstuvwxyz_");
-  return p[nl] == '=' && p[nl + 1] == '\"' && p + nl + 2 == base + blen - 1;
-}
-
 static int hexval(int c) { return c >= '0' && c <= '9' ? c - '0' : c >= 'a' && c <= 'f' ? c - 'a' + 10 : -1; }
 
 static int do_dist(char *args);
@@ -87,17 +72,17 @@ static void exec_op(char *line) {
   char op[16]; unsigned f = 0; unsigned long len = 0; int pos = 0;
   last_ret = -2; last_new = -1; last_tag = NULL;
   if (sscanf(line, "%15s%n", op, &pos) < 1) { fprintf(fout, "bad-op\n"); return; }
-  if (!strcmp(op, "buf")) {
-    char ve[8]; int p2 = 0;
+  if (!strcmp(op, "buf") || !strcmp(op, "bufn")) {
+    int p2 = 0; long neg = 0; size_t n;
     session_end();
-    if (sscanf(line + pos, " %7s %n", ve, &p2) < 1 || strlen(ve) != 2) { fprintf(fout, "bad-op\n"); return; }
-    const char *hx = line + pos + p2; size_t n = strlen(hx) / 2;
-    if (hx[0] == '.') n = 0;
-    if (n == 0 && !inc_b) { fprintf(fout, "illegal\n"); return; }
+    const char *hx = line + pos; while (*hx == ' ') hx++;
+    if (!strcmp(op, "bufn")) { if (sscanf(hx, "%ld", &neg) < 1 || neg > 0) { fprintf(fout, "bad-op\n"); return; } n = 0; }
+    else { n = strlen(hx) / 2; if (hx[0] == '.') n = 0; else if (!n || strlen(hx) % 2) { fprintf(fout, "bad-op\n"); return; } }
+    (void) p2;
     char *src = malloc(n ? n : 1);
     for (size_t i = 0; i < n; i++) src[i] = (char) (hexval(hx[2 * i]) * 16 + hexval(hx[2 * i + 1]));
     memset(&bdata, 0, sizeof bdata); bdata.msgprefix = (char *) "h";
-    int r = hwloc_nolibxml_backend_init(&bdata, NULL, src, (int) n);
+    int r = hwloc_nolibxml_backend_init(&bdata, NULL, src, n ? (int) n : (int) neg);
     free(src);
     if (r < 0) { fprintf(fout, "buf r=-1\n"); return; }
     have_session = 1;
@@ -110,7 +95,6 @@ static void exec_op(char *line) {
   if (!have_session) { fprintf(fout, "nosession\n"); return; }
   if (!strcmp(op, "init")) {
     if (nframes) { fprintf(fout, "illegal\n"); return; }
-    if (!var_a && !inc_a && class_f05a()) { stats[S_SKIP_F05A]++; fprintf(fout, "illegal\n"); return; }
     frames[0] = calloc(1, sizeof(**frames)); frames[0]->global = &bdata;
     int r = hwloc_nolibxml_look_init(&bdata, frames[0]);
     last_ret = r;
@@ -124,7 +108,6 @@ static void exec_op(char *line) {
   if (f >= nframes) { fprintf(fout, "badframe\n"); return; }
   if (!strcmp(op, "A")) {
     char *name = NULL, *value = NULL;
-    if (!var_e && !inc_e && class_f05e(f)) { stats[S_SKIP_F05E]++; fprintf(fout, "illegal\n"); return; }
     int r = hwloc__nolibxml_import_next_attr(frames[f], &name, &value);
     last_ret = r;
     fprintf(fout, "A r=%d", r);
@@ -167,7 +150,7 @@ static void exec_op(char *line) {
     else stats[r == 0 ? S_CONTENT0 : S_CONTENT_FAIL]++;
     put_off("tb", NS(f)->tagbuffer); put_buf(); fputc('\n', fout);
   } else if (!strcmp(op, "K")) {
-    if (!NS(f)->closed && !content_open[f] && !inc_f) { fprintf(fout, "illegal\n"); return; }
+    if (!NS(f)->closed && !content_open[f]) { fprintf(fout, "illegal\n"); return; }
     hwloc__nolibxml_import_close_content(frames[f]);
     content_open[f] = 0; stats[S_CLOSECONTENT]++;
     fprintf(fout, "K"); put_buf(); fputc('\n', fout);
@@ -358,7 +341,7 @@ static void consume(unsigned f, int depth) {
           unsigned long len = lt ? (unsigned long) (lt - tb) : rng_below(5);
           if (rng_chance(15)) len = rng_below(2) ? len + 1 : rng_below(4);
           emit("G %u %lu", ch, len);
-          if (last_ret >= 0 || inc_f) { emit("K %u", ch); }
+          if (last_ret >= 0) { emit("K %u", ch); }
           else if (rng_chance(30)) { aborted = !rng_chance(30); }
           emit("T %u", ch);
         } else if (depth < 12) consume(ch, depth + 1);
@@ -386,7 +369,7 @@ static void consume(unsigned f, int depth) {
 }
 
 static void emit_buf(const char *p, size_t n) {
-  static char line[1 << 20]; int off = snprintf(line, sizeof line, "buf %d%d ", var_a, var_e);
+  static char line[1 << 20]; int off = snprintf(line, sizeof line, "buf ");
   if (n * 2 + 64 > sizeof line) n = (sizeof line - 64) / 2;
   if (!n) line[off++] = '.';
   for (size_t i = 0; i < n; i++) off += sprintf(line + off, "%02x", (unsigned char) p[i]);
@@ -396,7 +379,6 @@ static void emit_buf(const char *p, size_t n) {
 }
 
 static void run_doc(const char *p, size_t n) {
-  if (n == 0 && !inc_b) return;
   emit_buf(p, n);
   
   if (!have_session) return;
@@ -439,33 +421,8 @@ static void gen_dist(void) {
   fprintf(fops, "%s\n", line); fflush(fops); exec_op(line); fflush(fout);
 }
 
-/* which source variant are we built from?  E: in-bounds behavioural probe.  A: in a forked child. */
-static void probe_variant(void) {
-  struct hwloc__xml_import_state_s st; struct hwloc_xml_backend_data_s bd; char *name, *value;
-  char *b = malloc(8); memcpy(b, "a=\"\0x\" ", 8); b[7] = 0;
-  memset(&st, 0, sizeof st); memset(&bd, 0, sizeof bd); st.global = &bd;
-  ((hwloc__nolibxml_import_state_data_t) (void *) st.data)->attrbuffer = b;
-  var_e = hwloc__nolibxml_import_next_attr(&st, &name, &value) < 0;
-  free(b);
-  fflush(NULL);
-  pid_t pid = fork();
-  if (pid == 0) {
-    int dn = open("/dev/null", O_WRONLY); if (dn >= 0) { dup2(dn, 2); dup2(dn, 1); }
-    static const char doc[] = "<topology version=\"2.0\"";
-    struct hwloc__nolibxml_backend_data_s nb; nb.buffer = malloc(sizeof doc); memcpy(nb.buffer, doc, sizeof doc); nb.buflen = sizeof doc;
-    bd.data = &nb;
-    int r = hwloc_nolibxml_look_init(&bd, &st);
-    _exit(r < 0 ? 0 : 1);
-  }
-  int status = 0; waitpid(pid, &status, 0);
-  var_a = WIFEXITED(status) && WEXITSTATUS(status) == 0;
-}
-
 int main(int argc, char **argv) {
-  inc_a = getenv("VERIF_INCLUDE_F05A") != NULL; inc_b = getenv("VERIF_INCLUDE_F05B") != NULL;
-  inc_e = getenv("VERIF_INCLUDE_F05E") != NULL; inc_f = getenv("VERIF_INCLUDE_F05F") != NULL;
   setenv("HWLOC_LIBXML", "0", 1); setenv("HWLOC_HIDE_ERRORS", "2", 1); setenv("HWLOC_DONT_ADD_VERSION_INFO", "1", 1);
-  probe_variant();
   if (argc >= 4 && !strcmp(argv[1], "--replay")) {
     FILE *in = fopen(argv[2], "r"); fout = fopen(argv[3], "w");
     if (!in || !fout) return 2;
@@ -495,6 +452,7 @@ int main(int argc, char **argv) {
   while (nops < total_limit) {
     unsigned c = rng_below(100);
     if (c < 6) { gen_dist(); nops += 20; continue; }
+    if (c == 6 && rng_chance(30)) { if (rng_chance(50)) run_doc("", 0); else emit("bufn %d", -(int) rng_below(3)); continue; }
     struct doc *d = &docs[rng_below(ndocs)];
     size_t n = d->n; if (n > sizeof work / 2) n = sizeof work / 2;
     memcpy(work, d->p, n);
@@ -505,7 +463,7 @@ int main(int argc, char **argv) {
   }
   session_end();
   FILE *fs = fopen(argv[4], "w");
-  if (fs) { for (int i = 0; i < S_NB; i++) fprintf(fs, "%s %lu\n", stat_names[i], stats[i]); fprintf(fs, "variant.fixA %d\nvariant.fixE %d\n", var_a, var_e); fclose(fs); }
+  if (fs) { for (int i = 0; i < S_NB; i++) fprintf(fs, "%s %lu\n", stat_names[i], stats[i]); fclose(fs); }
   fclose(fops); fclose(fout);
   for (unsigned i = 0; i < ndocs; i++) free(docs[i].p);
   free(docs);
